@@ -59,7 +59,12 @@ def _none_branch(ix, m, sim: FuncInfo, translate: FuncInfo):
                 continue
             test = st.test
             if isinstance(test, ast.Compare) and len(test.ops) == 1 and norm(test.left) == gate and norm(test.comparators[0]) == "None":
+                rest = loop.body[loop.body.index(st) + 1:]
+                ends = bool(st.body) and isinstance(st.body[-1], (ast.Continue, ast.Return, ast.Raise))
                 if isinstance(test.ops[0], ast.IsNot):
+                    # `if gate is not None: …; continue` followed by the None handling, or the if/else form
+                    if not st.orelse and ends:
+                        return var, rest, st, loop
                     return var, st.orelse, st, loop
                 if isinstance(test.ops[0], ast.Is):
                     return var, st.body, st, loop
